@@ -510,16 +510,32 @@ func (p *Parser) parseComponentStmt() ast.Statement {
 		return nil
 	}
 
+	hasSlots := false
+
 	if p.peekTokenIs(token.SLOT) {
 		p.nextToken() // skip ")"
 		stmt.Slots = p.parseSlots()
+		hasSlots = true
 	} else if p.peekTokenIs(token.HTML) && isWhitespace(p.peekToken.Literal) {
 		p.nextToken() // skip ")"
 
 		if p.peekTokenIs(token.SLOT) {
 			p.nextToken() // skip whitespace
 			stmt.Slots = p.parseSlots()
+			hasSlots = true
 		}
+	}
+
+	// a component with slots is closed by its own "@end"
+	if hasSlots && !p.curTokenIs(token.END) {
+		p.newError(
+			p.curToken.ErrorLine(),
+			fail.ErrWrongNextToken,
+			token.String(token.END),
+			token.String(p.curToken.Type),
+		)
+
+		return nil
 	}
 
 	p.components = append(p.components, stmt)
